@@ -144,6 +144,42 @@ CHECKS['C07'] = dict(
     technique='Lean 4 proof (fold invariant: table lookup = first matching definition) + correspondence of normalize_label and Document.footnotes + placement exploration with the generator table as oracle',
     ref='DESIGN.md section 5, C07')
 
+CHECKS['C02'] = dict(
+    category='exploration',
+    text='The property quantifies over a finite corpus, which every run enumerates completely on the implementation: '
+         'all 652 examples of the vendored CommonMark 0.30 spec.json are rendered with HtmlRenderer('
+         'html_escape_double_quotes=True) and compared with the expected HTML under a re-implementation of the '
+         'specification driver\'s normalisation. This decides C02 for the tree at hand. The Lean corpus theorem over the '
+         'parser model (kernel evaluation of all examples) is the planned upgrade once the model covers the whole inline '
+         'grammar; until then the level is exhaustive enumeration, not proof.',
+    note='Trusted: specnorm.py (normaliser), the vendored corpus. Interim level, see DESIGN.md C02.',
+    technique='exhaustive enumeration of the finite quantifier on the implementation (Lean corpus theorem pending the full parser model)',
+    ref='DESIGN.md section 5, C02')
+
+CHECKS['C01'] = dict(
+    category='exploration',
+    text='Interim level: search over the input and configuration space on the implementation - every bundled renderer '
+         'configuration (options, max_line_length, input forms) on random documents, spec mutations, a malformed Unicode '
+         'stream, exhaustive small-alphabet strings and line sequences, and nesting up to depth 100 - flagging any '
+         'exception other than the two documented refusals and any run over the wall-clock budget. The Lean totality '
+         'theorems (fuel sufficiency of the dispatch loop and of process_emphasis, render_map coverage) are attached to '
+         'the parser model as it grows; wall-clock termination itself can only be measured.',
+    note='Trusted: SIGALRM budget; Pygments exercised, not modelled. Interim level, see DESIGN.md C01.',
+    technique='exploration of inputs x configurations on the implementation (Lean totality theorems pending the parser model)',
+    ref='DESIGN.md section 5, C01')
+
+CHECKS['C06'] = dict(
+    category='exploration',
+    text='Interim level: the real inline parser is compared with an independent declarative implementation of the '
+         'CommonMark 0.30 delimiter-run procedure (flanking from the definitions, underscore restrictions, rule of three '
+         'on original run lengths, nearest admissible opener) exhaustively over {a,space,*,_,.} to length 7/9 and over '
+         '{a,*}, {a,_} to length 12/14, plus random strings to length 40 over Unicode punctuation/whitespace; the oracle '
+         'is itself checked against the corpus emphasis examples on every run. The Lean model of process_emphasis with '
+         'the flanking theorem and the refinement to the declarative procedure is the planned upgrade.',
+    note='Trusted: spec_emph.py as reading of section 6.2. Interim level, see DESIGN.md C06.',
+    technique='exhaustive small-scope + random differential against an executable model of the specification algorithm (Lean refinement proof pending)',
+    ref='DESIGN.md section 5, C06')
+
 NOT_YET = {}
 
 
@@ -162,7 +198,7 @@ def main():
                 'evidence_file': 'evidence/%s.json' % pid,
                 'replay_cmd_template': './check %s --replay {path}' % pid,
                 'engine': 'lean-model+correspondence',
-                'level_claimed': {'category': 'proof', 'text': c['text'], 'design_ref': c['ref']},
+                'level_claimed': {'category': c.get('category', 'proof'), 'text': c['text'], 'design_ref': c['ref']},
                 'level_note': c['note'],
                 'technique': c['technique'],
             })
